@@ -81,8 +81,10 @@ def templates(tier, mode):
     for op in ('&&', '||'):
         both(out, 'logic' + op, T('x %s y' % op), spec(['bool']))
     bitk = spec(['i64', 'num', 'smallint'], (0, 1) if tier == 'quick' else (0, 1, 2, 28))
+    # '| ^ &' also over bit-vector sourced integers of up to 96 bits (values just outside i64, above 2^53)
+    bitw = spec(['i64', 'i128', 'num', 'smallint'], (0, 1) if tier == 'quick' else (0, 1, 2, 28))
     for op in ('|', '^', '&', '<<', '>>'):
-        both(out, 'bit' + op, T('x %s y' % op), bitk)
+        both(out, 'bit' + op, T('x %s y' % op), bitw if op in ('|', '^', '&') else bitk)
     for op in ('beginWith', 'endWith'):
         both(out, 'str-' + op, T('x %s y' % op), richstr)
     out.append(('in', T('x in y'), {'x': spec(['num', 'bool', 'str', 'none'], (0, 1), strshapes=[(), (1,)]), 'y': richlist}))
